@@ -398,6 +398,132 @@ def s_trim(F, res, label=""):
             res.add([ok("S-TRIM", key, where(f), "each removal is dominated, inside its loop, by a fresh evaluation of the excess (available - target, contains_total)")])
 
 
+def s_lattice(F, res):
+    """S-LATTICE: the per-constraint subsets are combined by a union and an intersection over {NotSet = no constraint stated,
+    All = every UTxO, Specific(set)}.  Both are finite case tables over the pairs of variants.  For the function whose
+    Specific x Specific case calls HashSet::union (resp. ::intersection) - helpers and closures inlined - every pair of variants
+    is followed through the `match` (finite case analysis on the discriminants) and the result compared with the lattice:
+        union:        NotSet is neutral, All absorbs,   Specific x Specific -> set union
+        intersection: NotSet is neutral, All is neutral, Specific x Specific -> set intersection"""
+    SUB = NARROW + "Subset"
+    adt = F.adts.get(SUB)
+    if adt is None:
+        raise BrokenCheck("narrow::Subset not found")
+    discr = {v["name"]: v["discr"] for v in adt["variants"]}
+    if set(discr) != {"NotSet", "All", "Specific"}:
+        res.add([assumption("S-LATTICE", SUB + "|variants", where_adt(adt), "Subset no longer has the variants NotSet / All / Specific: lattice table not decided")])
+        return
+    # binary operations on Subset: two Subset parameters, Subset result
+    ops = [f for f in F.fns.values() if f["crate"] == "tx3_resolver" and f.get("argc") == 2 and f["locals"][0] == SUB and f["locals"][1] == SUB and f["locals"][2] == SUB
+           and not f.get("derived")]
+    n = 0
+    for f0 in sorted(ops, key=lambda g: g["path"]):
+        def want(t, callee):
+            return callee["crate"] == "tx3_resolver" and not callee.get("impl_trait") and len(callee["blocks"]) <= 200
+        _KEEP.append(want)
+        f = mir.inline_calls(F, f0, want=want, depth=3)
+        du = mir.DefUse(f)
+        setops = {(t.get("callee") or "").split("::")[-1] for _, t in mir.calls(f) if "HashSet" in (t.get("callee") or "") and (t.get("callee") or "").split("::")[-1] in ("union", "intersection")}
+        if len(setops) != 1:
+            continue
+        kind = setops.pop()
+        n += 1
+        key = "%s|case table of the %s of two subsets" % (f0["path"], kind)
+        problems = []
+        for va in ("NotSet", "All", "Specific"):
+            for vb in ("NotSet", "All", "Specific"):
+                vals = mir.walk_under_variants(f, {1: va, 2: vb}, SUB, discr)
+                if vals is None:
+                    problems.append("%s(%s, %s): control flow outside the case-analysis fragment" % (kind, va, vb))
+                    continue
+                outs = set()
+                for v in vals:
+                    outs.add(_classify_walk_value(v, SUB))
+                if kind == "union":
+                    want_v = vb if va == "NotSet" else (va if vb == "NotSet" else ("All" if "All" in (va, vb) else "setop"))
+                else:
+                    want_v = vb if va == "NotSet" else (va if vb == "NotSet" else (vb if va == "All" else (va if vb == "All" else "setop")))
+                # what the result must be, in terms of the operands
+                got = set()
+                for o in outs:
+                    if o == "a":
+                        got.add(va if va != "Specific" else "a-set")
+                    elif o == "b":
+                        got.add(vb if vb != "Specific" else "b-set")
+                    else:
+                        got.add(o)
+                if want_v == "setop":
+                    good = got == {"setop"}
+                elif want_v == "Specific":
+                    good = got <= {"a-set", "b-set"} and got and ((va == "Specific") == ("a-set" in got) or (vb == "Specific") == ("b-set" in got))
+                else:
+                    good = got == {want_v}
+                if not good:
+                    problems.append("%s(%s, %s) yields %s, the lattice says %s" % (kind, va, vb, "/".join(sorted(got)) or "nothing", want_v if want_v != "setop" else "Specific(set %s)" % kind))
+        if problems:
+            res.add([finding("S-LATTICE", key, where(f0), "; ".join(problems[:3]))])
+        else:
+            res.add([ok("S-LATTICE", key, where(f0), "all 9 pairs of variants agree with the lattice (NotSet neutral; All %s)" % ("absorbs" if kind == "union" else "is neutral"))])
+    res.count("subset combinators", n)
+    if n == 0:
+        res.add([assumption("S-LATTICE", SUB + "|combinators", where_adt(adt), "no binary Subset operation built on HashSet::union / ::intersection found: lattice table not decided")])
+
+
+def _classify_walk_value(v, SUB):
+    if v[0] == "param" and not [p for p in v[2] if p[0] != "dc"]:
+        return "a" if v[1] == 1 else "b"
+    if v[0] == "agg" and v[1] == SUB:
+        if v[2] in ("All", "NotSet"):
+            return v[2]
+        pay = v[3][0] if v[3] else ("?",)
+        if pay[0] == "call":
+            return "setop"
+        if pay[0] == "param":
+            return "a-set" if pay[1] == 1 else "b-set"
+        return "Specific(?)"
+    if v[0] == "call":
+        return "call:" + v[1].split("::")[-1]
+    return "?"
+
+
+def where_adt(adt):
+    return "%s:%s" % (adt["file"].replace("/repo/", ""), adt["line"])
+
+
+def _classify_subset_value(F, f, du, rv, SUB):
+    """what a value assigned to the return place is: operand a / b (moved through), a literal All / NotSet, or a Specific built
+    by the set operation"""
+    out = set()
+    if rv["k"] == "agg" and rv.get("adt") == SUB:
+        if rv["variant"] in ("All", "NotSet"):
+            out.add(rv["variant"])
+        else:
+            src = mir.provenance(f, du, rv["ops"][0])
+            if any(o.kind == "call" and o.callee.split("::")[-1] in ("collect", "union", "intersection", "cloned") for o in src):
+                out.add("setop")
+            elif any(o.kind == "arg" for o in src):
+                for o in src:
+                    if o.kind == "arg":
+                        out.add("a" if o.local == 1 else "b")
+            else:
+                out.add("Specific(?)")
+        return out
+    if rv["k"] == "use":
+        for o in mir.provenance(f, du, rv["op"]):
+            if o.kind == "arg" and o.local in (1, 2):
+                out.add("a" if o.local == 1 else "b")
+            elif o.kind == "agg" and o.rv.get("adt") == SUB:
+                out |= _classify_subset_value(F, f, du, o.rv, SUB)
+            elif o.kind == "call":
+                out.add("call:" + o.callee.split("::")[-1])
+            else:
+                out.add("?")
+    return out
+
+
+_KEEP = []
+
+
 def run(ctx):
     F = ctx.F
     res = Result("C03")
@@ -407,6 +533,7 @@ def run(ctx):
     res.rule("S-PREDICATE", "strategies guard their result with the covering predicates")
     res.rule("S-FABRICATE", "strategies return only UTxOs they were given")
     res.rule("C-ORDER", "the covering predicates (contains_total, is_empty_or_negative) decide each entry as stated, for every order type of the amounts")
+    res.rule("S-LATTICE", "Subset union / intersection agree with the lattice on all 9 pairs of variants (NotSet neutral; All absorbs under union, is neutral under intersection)")
     res.rule("S-TRIM", "excess trimming removes one UTxO per evaluation of the excess of the current set")
     f_candidates(F, res)
     s_include(F, res)
@@ -417,6 +544,7 @@ def run(ctx):
     # the covering predicates themselves, decided over order types (shared with C15)
     from . import c15
     c15.c_order(F, res, rule="C-ORDER")
+    s_lattice(F, res)
     if ctx.tier == "thorough":
         F2 = ctx.facts("naive")
         r2 = Result("C03")
